@@ -167,9 +167,21 @@ def run(rep: Report, prog: Program, tier: str) -> None:
     base_tsn = (1 << 32) - 3 if tier == "thorough" else 100
     sizes = (1, 2, 3, 4) if tier == "thorough" else (1, 2, 3)
     n_cases = 0
+    layouts = []
     for nfrag, unordered, prefix in itertools.product(sizes, (False, True), (0, 1)):
         for nsent in range(1, nfrag + 1):
             for trig in range(nsent):
+                layouts.append((nfrag, unordered, prefix, nsent, trig, 0, False))
+                if nsent == nfrag and trig == 0:
+                    # the reliable chunk right behind the abandoned message is gap-acked: it is not abandoned, the ack point must stop in front of it
+                    layouts.append((nfrag, unordered, prefix, nsent, trig, 0, True))
+            # the first fragment(s) were cumulatively acked and have left the sent queue before a later fragment ran out of retransmissions
+            if not prefix:
+                for nacked in range(1, nsent):
+                    layouts.append((nfrag, unordered, prefix, nsent, nacked, nacked, False))
+    for nfrag, unordered, prefix, nsent, trig, nacked, follow_acked in layouts:
+        for _once in (0,):
+            for _once2 in (0,):
                 n_cases += 1
                 tsn = base_tsn
                 pre = message(tsn % (1 << 32), 7, 3, 2, False, None, "p") if prefix else []
@@ -179,11 +191,17 @@ def run(rep: Report, prog: Program, tier: str) -> None:
                     c.tsn = (tsn + k) % (1 << 32)
                 tsn += nfrag
                 follow = message(tsn % (1 << 32), 7, 4, 2, False, None, "f", 2 if nsent == nfrag else 0)
-                sentq = deque(pre + target[:nsent] + (follow if nsent == nfrag else []))
+                sentq = deque(pre + target[nacked:nsent] + (follow if nsent == nfrag else []))
                 outq = deque(target[nsent:] + ([] if nsent == nfrag else follow))
-                me = SimpleNamespace(__cls__=ci, _sent_queue=sentq, _outbound_queue=outq, _last_sacked_tsn=(base_tsn - 1) % (1 << 32), _advanced_peer_ack_tsn=(base_tsn - 1) % (1 << 32),
+                if follow_acked:
+                    follow[0]._acked = True
+                for c in target[:nacked]:
+                    c._acked = True
+                sacked = (base_tsn - 1 + nacked) % (1 << 32)
+                me = SimpleNamespace(__cls__=ci, _sent_queue=sentq, _outbound_queue=outq, _last_sacked_tsn=sacked, _advanced_peer_ack_tsn=sacked,
                                      _forward_tsn_chunk=None, delivered=[])
-                label = f"{nfrag} fragment(s), {nsent} sent, trigger #{trig}, {'unordered' if unordered else 'ordered'}, {'reliable prefix outstanding' if prefix else 'at the head'}"
+                label = (f"{nfrag} fragment(s), {nsent} sent, trigger #{trig}, {'unordered' if unordered else 'ordered'}, {'reliable prefix outstanding' if prefix else 'at the head'}"
+                         + (f", first {nacked} fragment(s) already acknowledged" if nacked else "") + (", next reliable chunk gap-acked" if follow_acked else ""))
                 try:
                     r = hook.run_method(ma, me, [target[trig]], {})
                     others_before = [(c._abandoned, c._retransmit) for c in pre + follow]
@@ -197,8 +215,8 @@ def run(rep: Report, prog: Program, tier: str) -> None:
                 problems = []
                 if r is not True:
                     problems.append(f"_maybe_abandon returned {r!r} for a chunk past its retransmission limit")
-                if not all(c._abandoned and not c._retransmit for c in target):
-                    left = [i for i, c in enumerate(target) if not c._abandoned]
+                if not all(c._abandoned and not c._retransmit for c in target[nacked:]):
+                    left = [i for i, c in enumerate(target) if not c._abandoned and i >= nacked]
                     problems.append(f"fragment(s) {left} of the abandoned message are not abandoned" + (" (still queued for transmission)" if any(target[i] in outq for i in left) else ""))
                 if any(c._abandoned for c in pre + follow) or r_rel:
                     problems.append("a chunk of another (reliable) message was abandoned")
@@ -208,6 +226,8 @@ def run(rep: Report, prog: Program, tier: str) -> None:
                     fwd = me._forward_tsn_chunk
                     if any(c in me._sent_queue for c in target):
                         problems.append("abandoned fragments at the head of the sent queue were not retired")
+                    if nsent == nfrag and any(c not in me._sent_queue for c in follow):
+                        problems.append("the peer ack point was advanced over a chunk of a reliable message (gap-acked, not cumulatively acked): the FORWARD-TSN tells the receiver to skip it")
                     if fwd is None or fwd.cumulative_tsn != target[-1].tsn:
                         problems.append(f"FORWARD-TSN covers up to {getattr(fwd, 'cumulative_tsn', None)}, the abandoned message ends at {target[-1].tsn}")
                     elif [tuple(x) for x in fwd.streams] != ([] if unordered else [(5, 9)]):
@@ -306,6 +326,37 @@ def run(rep: Report, prog: Program, tier: str) -> None:
         else:
             rep.fail(mk_finding(prog, PROP, "C06-RECV", rf, rf.node, f"[{label}] delivered {got}; expected R1 and R2 on stream 1 and X on stream 2, each once: a duplicated FORWARD-TSN "
                                 f"rewound the stream's expected sequence number", construct="receiver: duplicate FORWARD-TSN"))
+    # the abandoned message itself was partly received: its fragments must go, the next message on the same channel must come out
+    for a_unordered, mask, n_frag in itertools.product((False, True), (1, 2, 3), (1, 2)):
+        have = [t for i, t in enumerate((9, 10)) if mask >> i & 1]
+        label = (f"{'unordered' if a_unordered else 'ordered'} abandoned message of 3 fragments, fragment(s) {have} received, last one lost; "
+                 f"next message on the channel has {n_frag} fragment(s)")
+        me = SimpleNamespace(__cls__=ci, _last_received_tsn=8, _sack_needed=False, _sack_duplicates=[], _sack_misordered=set(), _inbound_streams={}, _inbound_streams_max=65535,
+                             _advertised_rwnd=100000, delivered=[])
+        un = UNORD if a_unordered else 0
+        a = {9: chunk(9, 1, 0, un | FIRST, b"A0"), 10: chunk(10, 1, 0, un, b"A1")}
+        nxt = [chunk(12 + i, 1, 1, un | (FIRST if i == 0 else 0) | (LAST if i == n_frag - 1 else 0), f"N{i}".encode()) for i in range(n_frag)]
+        try:
+            for t in have:
+                hook.run_method(rd, me, [a[t]], {})
+            hook.run_method(rf, me, [SimpleNamespace(cumulative_tsn=11, streams=[] if a_unordered else [(1, 0)], flags=0)], {})
+            for c in nxt:
+                hook.run_method(rd, me, [c], {})
+        except Raised as ex:
+            rep.fail(mk_finding(prog, PROP, "C06-RECV", rf, getattr(ex, "node", None), f"[{label}] raises {ex.name}", construct=f"forward-tsn raises {ex.name}"))
+            continue
+        except Unknown as ex:
+            raise AnalysisError(f"C06-RECV cannot evaluate [{label}]: {ex}")
+        got = [(d[0], bytes(d[2])) for d in me.delivered]
+        want = [(1, b"".join(bytes(c.user_data) for c in nxt))]
+        stale = [c.tsn for st in me._inbound_streams.values() for c in st.reassembly if c.tsn <= 11]
+        n_recv += 1
+        if got == want and not stale and me._advertised_rwnd == 100000:
+            rep.ok("C06-RECV", label, sample="fragments of the abandoned message dropped, window restored, the next message delivered")
+        else:
+            rep.fail(mk_finding(prog, PROP, "C06-RECV", rf, rf.node,
+                                f"[{label}] delivered {got}, expected {want}; fragments of the abandoned message still queued: {stale}; advertised window {me._advertised_rwnd} (100000 before): "
+                                "the remains of an abandoned message block or leak on its channel", construct="receiver: abandoned message partly received"))
     if n_cases < 20 or n_recv < 60:
         raise AnalysisError("evaluation families are smaller than expected")
 
